@@ -1747,7 +1747,11 @@ class Interp:
             df = dn in ('float32', 'float64', 'untyped float')
             if si and df:
                 xs = x if is_sym(x) else z3.BitVecVal(x, si[0])
-                r = z3.fpSignedToFP(FP_RM, xs, fp_sort(dn)) if si[1] else z3.fpUnsignedToFP(FP_RM, xs, fp_sort(dn))
+                # canonical form: extend to 64 bits by the source signedness first (the value is the same), so that
+                # int8->float64 and int8->int64->float64 are the same term and need no floating-point reasoning
+                if si[0] < 64:
+                    xs = z3.SignExt(64 - si[0], xs) if si[1] else z3.ZeroExt(64 - si[0], xs)
+                r = z3.fpSignedToFP(FP_RM, xs, fp_sort(dn)) if (si[1] or si[0] < 64) else z3.fpUnsignedToFP(FP_RM, xs, fp_sort(dn))
                 return z3.simplify(r)
             if sf and di:
                 h = self.call_hooks.get('fp2int')
